@@ -31,6 +31,10 @@ class Lab:
             def __init__(self, k):
                 self.k = k
 
+            def __len__(self):
+                # (a pool / collection-like manager that is currently empty: falsy, yet a manager like any other)
+                return 0 if lab.table.get(self.k, {}).get("falsy") else 1
+
             def __enter__(self):
                 return self
 
@@ -206,6 +210,8 @@ def rand_case(rng: random.Random) -> dict:
         else:
             uw = rng.randrange(n)
         d: Dict[str, Any] = {"id": i, "kind": kind, "uw": uw}
+        if kind == "plain" and rng.random() < 0.25:
+            d["falsy"] = True
         if kind == "plain":
             el: Dict[str, Any] = {}
             if rng.random() < 0.4:
@@ -238,14 +244,23 @@ def rand_case(rng: random.Random) -> dict:
             # (a hook that installs a generator-based manager AND a frameless inner_stack of its own makes the contextlib glue
             # look at that inner_stack: a combination with no documented meaning, kept out of the space)
             el.pop("inner", None)
-    return {"k": "fill", "obj": 0, "exiting": rng.random() < 0.35, "mgrs": mgrs, "where": rng.choice(["outside", "inside"])}
+    case = {"k": "fill", "obj": 0, "exiting": rng.random() < 0.35, "mgrs": mgrs, "where": rng.choice(["outside", "inside", "inside", "frame"])}
+    if case["where"] == "frame":
+        if mgrs[0]["kind"] != "plain":
+            case["where"] = "inside"
+        else:
+            # the manager is the SECOND of two held by a real frame; the first one's hook may fail: each context of a frame is
+            # filled on its own
+            case["exiting"] = False
+            case["first_raises"] = rng.random() < 0.6
+    return case
 
 
 class C11(PropCheck):
     pid = "C11"
     rule = ("wrapper chains of 1-6 managers (+3 replacement targets) over synthetic manager types and real @contextmanager "
             "objects with registered unwrap_context_generator hooks; unwrap in {None, next, PRUNE, self, earlier (cycle), raise}; "
-            "elaborate sets any of description/children/inner_stack/obj or raises; exiting or not; outside or inside an extract; "
+            "elaborate sets any of description/children/inner_stack/obj or raises; a quarter of the plain managers are falsy (empty-collection-like); exiting or not; outside an extract, inside one, or as the second of two managers of a real frame whose first manager's hook may fail; "
             "plus linear chains of length 98..102 around the guard; non-trivial = at least one successful unwrap step")
     manifest = {
         "text": "Lean: C11_trace (for every hook table the call sequence is E(o) U(o') E(m) U(m') … exactly as documented, re-elaborating after each successful unwrap), C11_replace (a returned manager replaces obj and resets inner_stack and children before re-elaboration), C11_none / C11_prune, C11_guard_bound (always terminates within the generated guard, never hangs) and C11_guard_fires (a self-cycle ends in the guard error after exactly guard rounds), C11_gcm_paths (inner_stack.frames[0] and extract_outermost(mgr.gen) hand the hook the same frame, via C16), C11_outside (fill_context outside an extract runs under the options extract(True, False) installs — from the C13 model). Tie: real fill_context on generated chains, outside and inside extract, vs the model, including hook call traces.",
@@ -292,6 +307,35 @@ class C11(PropCheck):
             except RuntimeError:
                 pass
             return lab.show(ctx, outcome)
+        if case["where"] == "frame":
+            first = lab.M(9000)
+            lab.table[9000] = {"id": 9000, "kind": "plain", "uw": None, "el": {"raise": 9777} if case.get("first_raises") else None}
+            lab.ids[id(first)] = 9000
+
+            def holder():
+                with first, mgr0:
+                    yield
+
+            h = holder()
+            next(h)
+            try:
+                with lab.logging():
+                    st = ss.extract(h)
+            finally:
+                h.close()
+            lab.trace = [t for t in lab.trace if t not in ("E9000", "U9000")]
+            ctxs = st.frames[0].contexts if st.frames else []
+            if len(ctxs) != 2:
+                return f"frame has {len(ctxs)} contexts, expected 2 (error {st.error!r})"
+            errs = [] if st.error is None else list(getattr(st.error, "exceptions", [st.error]))
+            mine = [e for e in errs if not (isinstance(e, Injected) and e.e == 9777)]
+            if case.get("first_raises") and len(mine) == len(errs):
+                lab.hook_problems.append("the failure of the first context's hook is not reported in Stack.error")
+            outcome = "ok"
+            if mine:
+                e = mine[0]
+                outcome = f"raised{e.e}" if isinstance(e, Injected) else ("guard" if "unwrapped more than" in str(e) else repr(e))
+            return lab.show(ctxs[1], outcome)
         # inside an extract: a generator frame holding the manager in a `with`
         holder_ctx = []
 
@@ -373,7 +417,7 @@ class C11(PropCheck):
         return None
 
     def stats(self, cases, reals):
-        d = {"outside": 0, "inside": 0, "exiting": 0, "guard": 0, "prune": 0, "raised": 0, "with_gcm": 0, "replaced": 0}
+        d = {"outside": 0, "inside": 0, "frame": 0, "exiting": 0, "guard": 0, "prune": 0, "raised": 0, "with_gcm": 0, "replaced": 0}
         for c, r in zip(cases, reals):
             d[c["where"]] += 1
             d["exiting"] += c["exiting"]
